@@ -330,6 +330,10 @@ def check_property(pid, tier, repo, scratch, seed):
     def relevant(f):
         if f.get('concrete_input'):
             return True
+        if f.get('function', '').startswith('kani::') and relv.get('safety'):
+            # a property about safety only (C10): of a failed harness only the checks Kani adds itself count (overflow, bounds,
+            # shifts, division, unwinding), not the functional assertions of the harness
+            return any(x in f.get('kind', '') for x in ('overflow', 'out of bounds', 'division by zero', 'unwinding', 'dereference', 'remainder', 'shift'))
         if f.get('function', '').startswith('kani::') or f.get('function', '').startswith('regression'):
             return True
         k = f.get('kind', '')
